@@ -44,6 +44,7 @@ func calleeName(c *ssa.CallCommon) string {
 
 func (f *frame) call(in ssa.CallInstruction, st *bstate) {
 	c := in.Common()
+	f.curIn = in
 	var resVal ssa.Value
 	if v, ok := in.(*ssa.Call); ok {
 		resVal = v
@@ -506,6 +507,41 @@ func (f *frame) appendBuiltin(c *ssa.CallCommon, st *bstate) TV {
 	ncap := vc.fresh("acap", "Int")
 	vc.assert(fmt.Sprintf("(and (>= %s %s) (=> %s (= %s (s_cap %s))))", ncap, newLen, fits, ncap, s.T))
 	srow := sel(m, "(s_base "+s.T+")")
+	// append(s, x0, ..., xk) with a small literal number of elements: when the
+	// result fits the row is the old row with k+1 stores (no quantifier)
+	if n, ok := smallVarargs(c.Args[1]); ok && e.S != "Str" {
+		stored := srow
+		for k := 0; k < n; k++ {
+			stored = sto(stored, fmt.Sprintf("(+ (s_off %s) (s_len %s) %d)", s.T, s.T, k), eAt(fmt.Sprint(k)))
+		}
+		frow := vc.fresh("row", arr1(es))
+		vc.assert(fmt.Sprintf("(forall ((i Int)) (! (= (select %s i) (ite (and (<= 0 i) (< i (s_len %s))) (select %s (+ (s_off %s) i)) (ite (and (<= (s_len %s) i) (< i %s)) %s %s))) :pattern ((select %s i))))",
+			frow, s.T, srow, s.T, s.T, newLen, eAt("(- i (s_len "+s.T+"))"), f.sr().zero(sl.Elem()), frow))
+		inLoop := false
+		if f.curIn != nil {
+			for _, li := range f.loops {
+				if li.body[f.curIn.Block()] {
+					inLoop = true
+				}
+			}
+		}
+		if !inLoop {
+			// the same copy fact triggered from reads of the source row, so that
+			// what is known about an old element carries over to a reallocated
+			// row (straight-line appends only: inside loops the extra trigger
+			// slows the in-place reasoning down)
+			vc.assert(fmt.Sprintf("(forall ((a Int)) (! (=> (and (<= (s_off %s) a) (< a (+ (s_off %s) (s_len %s)))) (= (select %s (- a (s_off %s))) (select %s a))) :pattern ((select %s a))))",
+				s.T, s.T, s.T, frow, s.T, srow, srow))
+		}
+		nrow := vc.define("row", arr1(es), ite(fits, stored, frow))
+		// ground reads of the appended elements (instances of the definitions above)
+		for k := 0; k < n; k++ {
+			vc.assert(fmt.Sprintf("(= (select %s (+ %s (s_len %s) %d)) %s)", nrow, off, s.T, k, eAt(fmt.Sprint(k))))
+		}
+		vc.setComp(st, compMem(es), arr2(es), sto(m, base, nrow))
+		r := vc.define("app", "Slice", fmt.Sprintf("(mk_slice %s %s %s %s)", base, off, newLen, ncap))
+		return TV{T: r, S: "Slice", Ty: c.Args[0].Type()}
+	}
 	nrow := vc.fresh("row", arr1(es))
 	// nrow[off+i] = s[i] for i < len s; = e[i-len s] for len s <= i < newLen; other positions: unchanged when reusing
 	vc.assert(fmt.Sprintf("(forall ((i Int)) (! (= (select %s i) (ite (and (<= %s i) (< i (+ %s (s_len %s)))) (select %s (+ (s_off %s) (- i %s))) (ite (and (<= (+ %s (s_len %s)) i) (< i (+ %s %s))) %s (ite %s (select %s i) %s)))) :pattern ((select %s i))))",
@@ -515,6 +551,24 @@ func (f *frame) appendBuiltin(c *ssa.CallCommon, st *bstate) TV {
 	vc.setComp(st, compMem(es), arr2(es), sto(m, base, nrow))
 	r := vc.define("app", "Slice", fmt.Sprintf("(mk_slice %s %s %s %s)", base, off, newLen, ncap))
 	return TV{T: r, S: "Slice", Ty: c.Args[0].Type()}
+}
+
+// smallVarargs: the appended slice is the compiler-made array of a call
+// append(s, x0, ..., xk) with at most 4 elements.
+func smallVarargs(v ssa.Value) (int, bool) {
+	sl, ok := v.(*ssa.Slice)
+	if !ok || sl.Low != nil || sl.High != nil {
+		return 0, false
+	}
+	al, ok := sl.X.(*ssa.Alloc)
+	if !ok || al.Comment != "varargs" {
+		return 0, false
+	}
+	at, ok := al.Type().(*types.Pointer).Elem().Underlying().(*types.Array)
+	if !ok || at.Len() < 1 || at.Len() > 4 {
+		return 0, false
+	}
+	return int(at.Len()), true
 }
 
 // ---------------------------------------------------------------------------
